@@ -95,9 +95,10 @@ def cases(tier, rng):
         yield hist_case(T, codes, "out-of-range-symbol")
     # long generated histories, through and past capacity
     for T in (314, 2, 3, 5, 13, 100):
-        for kind in ("rand", "skew", "single", "roundrobin", "sawtooth", "fib"):
+        for kind in ("rand", "skew", "single", "roundrobin", "sawtooth", "fib", "dom"):
             seeds = [rng.randrange(1 << 30) for _ in range(2 if thorough or T == 314 else 1)]
             if kind == "fib": seeds = [0, rng.randrange(1, 300)]
+            if kind == "dom": seeds = [rng.randrange(1 << 20), rng.randrange(1 << 20)]
             for seed in seeds:
                 yield gen_case(T, kind, 66000, seed, 997 if thorough else 4999, f"long-{kind}-T{T}-past-capacity")
         yield gen_case(T, "rand", CAP - T, rng.randrange(1 << 30), 4999, f"exactly-capacity-T{T}")
